@@ -16,8 +16,16 @@ package derive
 
 import "go/types"
 
-// IsError returns whether a type implements the Error interface.
+// IsError returns whether a type is the predeclared type error.
+// The generated functions spell the type of an error result as error,
+// so a function that returns a concrete error type is not one of their arguments.
 func IsError(t types.Type) bool {
+	return types.Identical(t, types.Universe.Lookup("error").Type())
+}
+
+// ImplementsError returns whether a type implements the Error interface.
+// This is what is asked of an error value that is passed to a generated function.
+func ImplementsError(t types.Type) bool {
 	typ, ok := t.(*types.Named)
 	if !ok {
 		return false
